@@ -5,10 +5,18 @@
 open C36model
 let rec pos_of_int n = if n = 1 then XH else if n land 1 = 0 then XO (pos_of_int (n lsr 1)) else XI (pos_of_int (n lsr 1))
 let n_of_int n = if n = 0 then N0 else Npos (pos_of_int n)
-let z_of_int n = if n = 0 then Z0 else if n > 0 then Zpos (pos_of_int n) else Zneg (pos_of_int (-n))
+(* int64 values (sizes, UnixNano) go through Int64: OCaml's native int has only 63 bits *)
+let rec pos_of_u64 (n : int64) =   (* n <> 0, read as unsigned *)
+  if Int64.equal n 1L then XH
+  else if Int64.equal (Int64.logand n 1L) 0L then XO (pos_of_u64 (Int64.shift_right_logical n 1))
+  else XI (pos_of_u64 (Int64.shift_right_logical n 1))
+let z_of_string s =
+  let n = Int64.of_string s in
+  if Int64.equal n 0L then Z0 else if Int64.compare n 0L > 0 then Zpos (pos_of_u64 n) else Zneg (pos_of_u64 (Int64.neg n))
+let rec u64_of_pos = function XH -> 1L | XO p -> Int64.shift_left (u64_of_pos p) 1 | XI p -> Int64.logor (Int64.shift_left (u64_of_pos p) 1) 1L
+let string_of_z = function Z0 -> "0" | Zpos p -> Printf.sprintf "%Lu" (u64_of_pos p) | Zneg p -> "-" ^ Printf.sprintf "%Lu" (u64_of_pos p)
 let rec int_of_pos = function XH -> 1 | XO p -> 2 * int_of_pos p | XI p -> 2 * int_of_pos p + 1
 let int_of_n = function N0 -> 0 | Npos p -> int_of_pos p
-let int_of_z = function Z0 -> 0 | Zpos p -> int_of_pos p | Zneg p -> - (int_of_pos p)
 let unhex s = if s = "-" then [] else
   List.init (String.length s / 2) (fun i -> n_of_int (int_of_string ("0x" ^ String.sub s (2*i) 2)))
 let hex l = if l = [] then "-" else begin
@@ -17,7 +25,7 @@ let hex l = if l = [] then "-" else begin
 let split c s = if s = "-" then [] else String.split_on_char c s
 let entry s = match String.split_on_char ':' s with
   | [n; d; ok; sz; mt] -> { e_name = unhex n; e_dir = (d = "1"); e_info_ok = (ok = "1");
-                            e_size = z_of_int (int_of_string sz); e_mtime = z_of_int (int_of_string mt) }
+                            e_size = z_of_string sz; e_mtime = z_of_string mt }
   | _ -> failwith ("bad entry " ^ s)
 let () =
   try while true do
@@ -32,7 +40,7 @@ let () =
        print_string (hex (fingerprint classes self l));
        print_string "\t";
        print_string (if v = [] then "-" else String.concat "," (List.map (fun ((n, s), m) ->
-         Printf.sprintf "%s:%d:%d" (hex n) (int_of_z s) (int_of_z m)) v))
+         Printf.sprintf "%s:%s:%s" (hex n) (string_of_z s) (string_of_z m)) v))
      | _ -> print_string "BADCASE");
     print_newline ()
   done with End_of_file -> ()
